@@ -496,6 +496,7 @@ def build_unit(tmpl_path: str, repo: str):
     meta = dict(unit=None, properties=[], min_verified=1, functions=[], items=[], canaries=[], obligations=[],
                 rewrites=[], template=tmpl_path)
     srccache = {}
+    default_rw = []
 
     def load(rel):
         if rel not in srccache:
@@ -534,6 +535,15 @@ def build_unit(tmpl_path: str, repo: str):
             meta['properties'] = d.split()[1:]
         elif d.startswith('min-verified '):
             meta['min_verified'] = int(d.split()[1])
+        elif d.startswith('default-rw '):
+            # a rewrite applied (min=0) to every fn block that follows in this unit (e.g. R6 async/.await removal)
+            arg = d[len('default-rw '):].strip()
+            if arg == 'clear':
+                default_rw.clear()
+            else:
+                if 'min=' not in arg.rsplit('/', 1)[-1]:
+                    arg += ' min=0'
+                default_rw.append(arg)
         elif d.startswith('fn ') or d.startswith('item '):
             is_fn = d.startswith('fn ')
             fields = [x.strip() for x in d.split(None, 1)[1].split('|')]
@@ -559,6 +569,8 @@ def build_unit(tmpl_path: str, repo: str):
             if i >= n:
                 raise ExtractError(f'{tmpl_path}: unterminated block for {b}')
             src, m = load(rel)
+            if is_fn and default_rw:
+                subs = [['rw', a_, [], i + 1] for a_ in default_rw] + subs
             if is_fn:
                 _emit_fn(g, meta, tmpl_path, rel, src, m, None if a in ('-', '') else a, b, kv, subs)
             else:
@@ -601,6 +613,27 @@ def _emit_fn(g, meta, tmpl, rel, src, m, ctx, name, kv, subs):
     line0 = line_of(src, s)
     sha = hashlib.sha256(text.encode()).hexdigest()
     rwlog = []
+    # R3: declarative-macro parameters substituted from the macro *invocation* found in the same source file, so the
+    # verified instance is the one the repository actually instantiates (inv=<macro>!<first-arg>, params=<p0>,<p1>,..:
+    # a parameter starting with `$` is substituted by the invocation's argument, a literal one must equal it — it is the
+    # literal that selects the macro arm — otherwise the anchor is lost and the run is undecided)
+    if 'inv' in kv:
+        macro, first = kv['inv'].split('!', 1)
+        mo_inv = re.search(r'\b%s!\s*\(\s*%s\s*((?:,[^;()]*)*)\)\s*;' % (re.escape(macro), re.escape(first)), m)
+        if not mo_inv:
+            raise ExtractError(f'macro invocation {macro}!({first}, ..) not found in {rel} — anchor lost')
+        args = [first] + [a.strip() for a in mo_inv.group(1).split(',')[1:]]
+        params = kv.get('params', '').split(',')
+        if len(params) != len(args):
+            raise ExtractError(f'{macro}!({", ".join(args)}): {len(args)} arguments, the unit expects {len(params)} — a different macro arm applies')
+        for prm, a in zip(params, args):
+            if prm.startswith('$'):
+                text, cnt = re.subn(re.escape(prm) + r'\b', a, text)
+                rwlog.append(dict(rule='R3', what=f'{prm} := {a} (from {macro}!({", ".join(args)}) at {rel}:{line_of(src, mo_inv.start())})', applied=cnt))
+                if prm == '$' + name.lstrip('$') or prm == name:
+                    name = a
+            elif prm != a:
+                raise ExtractError(f'{macro}!({", ".join(args)}): argument `{a}` where the unit expects the arm literal `{prm}`')
     # rewrites on sig+body
     for kind, arg, content, lno in subs:
         if kind == 'rw':
@@ -660,13 +693,16 @@ def _emit_fn(g, meta, tmpl, rel, src, m, ctx, name, kv, subs):
     hints = []
     for kind, arg, content, lno in subs:
         if kind == 'spec':
+            pending = None   # a tag names its whole clause: every line up to the one that ends with ','
             for (l, t) in content:
-                ob = None
+                ob = pending
                 mo2 = OB_TAG.search(t)
                 if mo2:
                     ob = mo2.group(1)
                     t = t[:mo2.start()] + t[mo2.end():]
                     meta['obligations'].append(dict(name=ob, where=f'{os.path.basename(tmpl)}:{l}', fn=fname, canary=canary))
+                if ob:
+                    pending = None if t.rstrip().endswith(',') else ob
                 g.emit(t, 'tmpl', tmpl, l, fn=fname, ob=ob)
         elif kind == 'loop':
             la = arg.split()
